@@ -328,11 +328,15 @@ def coq_eval(name, requires, exprs, shard=250):
 # ----------------------------------------------------------------------------- decision helpers
 
 def load_known(prop):
-    """known-findings.json (committed, never written at run time)."""
-    if not os.path.exists(KNOWN_FILE):
-        return []
-    data = json.load(open(KNOWN_FILE))
-    return [f for f in data.get("findings", []) if f.get("property") == prop]
+    """known-findings.json (assembled from known.d/*.json by tools/assemble.py) plus the property's own
+    fragment known.d/<prop>.json; both are committed files and are never written at run time."""
+    out = {}
+    for path in (KNOWN_FILE, os.path.join(ROOT, "known.d", prop + ".json")):
+        if os.path.exists(path):
+            for f in json.load(open(path)).get("findings", []):
+                if f.get("property") == prop:
+                    out[f["id"]] = f
+    return list(out.values())
 
 
 class Check:
